@@ -95,6 +95,11 @@ CLAIMED["C20"] = ("forbidden-call / receiver-provenance rule for randomness (E5b
          "go/ssa model; math/rand determinism for a fixed seed assumed; single-goroutine use",
          "DESIGN.md §3 C20")
 
+CLAIMED["C09"] = ("map-order lint incl. no-callback-in-map-range (E8), predicated path enumeration of internalDelete over path/glob/branch/emptiness atoms with boundary evaluation of the removable flag (E4), loop/dominance checks for visitor calls, append-base provenance for per-child path copies (E9)",
+         "Static, all-paths necessary conditions: sorted walk/String order-independent; a leaf reached with an exhausted path or one trailing glob is always offered to the condition and removed/reported/called back exactly when accepted; an empty node is never offered (found and now guards the fixed empty-tree delete); children pruned only after a removable visit; a branch reports itself removable exactly when empty in every glob/explicit arm; roots cleared only on the flag; visitors at most once per node; each child gets its own path slice. Model equivalence with a prefix-free map over operation sequences, failed-add atomicity and full Query/Delete agreement quantify over tree values and are NOT decided.",
+         "go/ssa model; map and slice semantics assumed; loops unrolled",
+         "DESIGN.md §3 C09")
+
 NA_REASON = {}
 DEFAULT_NA = "check not built yet in this round (static rules designed in DESIGN.md section 3); not claimed until the rule runs"
 
